@@ -345,6 +345,8 @@ def _reader_find(f):
     if len(body) < 5:
         _refuse(f, "FindSpaceGroup body too short")
     s0, s1, s2, s3 = body[:4]
+    if isinstance(s0, ast.Assign) and ast.unparse(s0) == "hh = _hashSymOpList(symops)":
+        s0, s1 = s1, s0          # the two independent assignments may come in either order
     if not (isinstance(s0, ast.Assign) and ast.unparse(s0) == "tb = _getSGHashLookupTable()"):
         _refuse(s0, "expected `tb = _getSGHashLookupTable()`")
     out.append("RCall GHash")
